@@ -149,13 +149,13 @@ func (g *Gen) structType(depth int) Struct {
 // Mirror derives a target type that the rule cascade can (mostly) reach from src: the same shape over freshly
 // declared named types, with occasional perturbations chosen by the knobs.
 type MirrorOpts struct {
-	PtrFlip   int // percent: add/remove a pointer level
-	KindFlip  int // percent: change a basic kind (makes the pair unconvertible)
-	DropField int // percent: drop a source-side field in the target (fine) or add one (missing source)
-	ReCase    int // percent: change the case of a field name
+	PtrFlip   int  // percent: add/remove a pointer level
+	KindFlip  int  // percent: change a basic kind (makes the pair unconvertible)
+	DropField int  // percent: drop a source-side field in the target (fine) or add one (missing source)
+	ReCase    int  // percent: change the case of a field name
 	KeepArray bool // arrays stay arrays (map keys must stay comparable)
 	Literal   int  // percent: named slice/map/pointer type <-> its identical unnamed literal
-	ArrayFlip int // percent: slice<->array
+	ArrayFlip int  // percent: slice<->array
 }
 
 func (g *Gen) Mirror(src T, o MirrorOpts, depth int) T {
